@@ -390,6 +390,33 @@ pub mod spec {
         }
     }
 
+    /// sequential composition (construct!(a, b)): `b` runs on exactly the state `a` left, even after `a` failed
+    /// (unless failfast); the first failing field's error is the one reported; values in declaration order
+    pub open spec fn con2_rel<TA, TB, A: Parser<TA>, B: Parser<TB>>(a: A, b: B, failfast: bool, pre: State, r: Result<(TA, TB), Error>, post: State) -> bool {
+        exists|ra: Result<TA, Error>, m1: State| #[trigger] a.rel(pre, ra, m1) && step(pre, m1) && (
+            if failfast && ra is Err { r == Err::<(TA, TB), Error>(ra->Err_0) && post == m1 }
+            else {
+                exists|rb: Result<TB, Error>, m2: State| #[trigger] b.rel(m1, rb, m2) && step(m1, m2) && (
+                    if ra is Err { r == Err::<(TA, TB), Error>(ra->Err_0) && post == m2 }
+                    else if rb is Err { r == Err::<(TA, TB), Error>(rb->Err_0) && post == m2 }
+                    else { r == Ok::<(TA, TB), Error>((ra->Ok_0, rb->Ok_0)) && post.same_but_current(m2) && post.current is None })
+            })
+    }
+
+    pub open spec fn con3_rel<TA, TB, TC, A: Parser<TA>, B: Parser<TB>, C: Parser<TC>>(a: A, b: B, c: C, failfast: bool, pre: State, r: Result<(TA, TB, TC), Error>, post: State) -> bool {
+        exists|ra: Result<TA, Error>, m1: State| #[trigger] a.rel(pre, ra, m1) && step(pre, m1) && (
+            if failfast && ra is Err { r == Err::<(TA, TB, TC), Error>(ra->Err_0) && post == m1 }
+            else {
+                exists|rb: Result<TB, Error>, m2: State, rc: Result<TC, Error>, m3: State|
+                    #![trigger b.rel(m1, rb, m2), c.rel(m2, rc, m3)]
+                    b.rel(m1, rb, m2) && step(m1, m2) && c.rel(m2, rc, m3) && step(m2, m3) && (
+                    if ra is Err { r == Err::<(TA, TB, TC), Error>(ra->Err_0) && post == m3 }
+                    else if rb is Err { r == Err::<(TA, TB, TC), Error>(rb->Err_0) && post == m3 }
+                    else if rc is Err { r == Err::<(TA, TB, TC), Error>(rc->Err_0) && post == m3 }
+                    else { r == Ok::<(TA, TB, TC), Error>((ra->Ok_0, rb->Ok_0, rc->Ok_0)) && post.same_but_current(m3) && post.current is None })
+            })
+    }
+
     pub open spec fn res_err<T>(r: Result<T, Error>) -> Option<Error> {
         match r { Ok(_) => None, Err(e) => Some(e) }
     }
@@ -1603,6 +1630,63 @@ where
         }
     }
 //@@ also fn meta external_body
+//@@ end
+
+
+// T9: the closure literal below is rustc's expansion of `construct!(a, b)` (src/lib.rs @fin arm)
+pub fn construct2<TA, TB, A: Parser<TA>, B: Parser<TB>>(a: A, b: B)
+    requires a.pwf(), b.pwf(),
+{
+    let inner =
+//@@ macro construct c2
+//@@ unit lib.construct_2 tags=C01,C05,C10
+//@@ spec
+        -> (r: Result<(TA, TB), Error>)
+        requires a.pwf(), b.pwf(), old(args).wf(),
+        ensures
+            con2_rel(a, b, failfast, *old(args), r, *final(args)), // #fields_left_to_right_on_shared_state_first_error_wins
+            step(*old(args), *final(args)), // #step
+//@@ end
+    ;
+}
+
+pub fn construct3<TA, TB, TC, A: Parser<TA>, B: Parser<TB>, C: Parser<TC>>(a: A, b: B, c: C)
+    requires a.pwf(), b.pwf(), c.pwf(),
+{
+    let inner =
+//@@ macro construct c3
+//@@ unit lib.construct_3 tags=C01,C05,C10
+//@@ spec
+        -> (r: Result<(TA, TB, TC), Error>)
+        requires a.pwf(), b.pwf(), c.pwf(), old(args).wf(),
+        ensures
+            con3_rel(a, b, c, failfast, *old(args), r, *final(args)), // #fields_left_to_right_on_shared_state_first_error_wins
+            step(*old(args), *final(args)), // #step
+//@@ end
+    ;
+}
+
+
+//@@ type src/structs.rs | struct ParseCon
+//@@ unit structs.ParseCon tags=
+//@@ end
+
+// ParseCon::eval is extracted as an inherent fn (T4): its contract speaks about the product closure's own ensures
+//@@ fn src/structs.rs | impl Parser for ParseCon | fn eval
+//@@ unit structs.ParseCon.eval tags=C01,C05,C10 inherent
+//@@ ret r
+//@@ spec
+        requires
+            forall|b: bool, s: &mut State| #[trigger] self.inner.requires((b, s)) <== (*s).wf(),
+            old(args).wf(),
+        ensures
+            exists|a: &mut State| *a == *old(args) && final(args).same_but_current(*final(a)) && #[trigger] self.inner.ensures((self.failfast, a), r), // #result_and_state_are_the_closures
+            final(args).current is None, // #current_reset
+//@@ insert before 1 `let res =`
+let ghost g_pre = *args;
+//@@ insert before 1 `args.current = None;`
+let ghost g_mid = *args;
+proof { assert(exists|a: &mut State| *a == g_pre && *final(a) == g_mid && #[trigger] self.inner.ensures((self.failfast, a), res)); }
 //@@ end
 
 }
